@@ -390,7 +390,8 @@ def run(ctx, anchors=None):
     # be repeated until end of input (a single fgets silently cuts the script at the buffer size and at the first newline)
     ctx.rule("R08.6", "the script is read from stdin completely (no single fixed-size read)")
     nrd = 0
-    for n in main.nodes():
+    # the reader may live in main or in a helper of the driver's file
+    for (rf, n) in [(f_, n_) for f_ in fb.funcs.values() if f_.file == A["main_file"] and f_.body is not None for n_ in f_.nodes()]:
         if not (astq.is_call(n) and n.get("n") in ("fgets", "fread", "read", "getline") and any(x["k"] == "ref" and x.get("n") == "stdin" for a in n.get("args", []) if a for x in walk(a))):
             continue
         dst = n["args"][0] if n.get("args") else None
@@ -399,16 +400,16 @@ def run(ctx, anchors=None):
         if dst is None or dst.get("k") != "ref":
             continue
         # does the array's content become the script (handed to strdup / parse_script / appended to a string)?
-        feeds = [m for m in main.nodes() if m["k"] in ("call", "mcall") and m.get("n") in ("strdup", "parse_script") and any(x["k"] == "ref" and x.get("d") == dst.get("d") for a in m.get("args", []) if a for x in walk(a))]
-        appended = [m for m in main.nodes() if m["k"] == "opcall" and m.get("op") in ("+=",) and any(x["k"] == "ref" and x.get("d") == dst.get("d") for a in m.get("args", [])[1:] if a for x in walk(a))]
+        feeds = [m for m in rf.nodes() if m["k"] in ("call", "mcall") and m.get("n") in ("strdup", "parse_script") and any(x["k"] == "ref" and x.get("d") == dst.get("d") for a in m.get("args", []) if a for x in walk(a))]
+        appended = [m for m in rf.nodes() if m["k"] == "opcall" and m.get("op") in ("+=",) and any(x["k"] == "ref" and x.get("d") == dst.get("d") for a in m.get("args", [])[1:] if a for x in walk(a))]
         if not feeds and not appended:
             continue
         nrd += 1
         ctx.site()
-        looped = any(a.get("k") in ("while", "for", "do") for a in main.ancestors(n))
-        ctx.inst(looped, "R08.6", "stdin-read-to-the-end@%s" % main.name, main.loc(n), "the read from stdin is repeated until end of input",
+        looped = any(a.get("k") in ("while", "for", "do") for a in rf.ancestors(n))
+        ctx.inst(looped, "R08.6", "stdin-read-to-the-end@%s" % rf.name, rf.loc(n), "the read from stdin is repeated until end of input",
                  "%s reads the script with a single %s into a fixed-size array: a script text of more than %s characters (a 15-of-15 multisig already is) is cut and reported as invalid, "
-                 "and everything after the first newline is dropped" % (main.name, n.get("n"), astq.estr(n["args"][1]) if len(n.get("args", [])) > 1 else "?"))
+                 "and everything after the first newline is dropped" % (rf.name, n.get("n"), astq.estr(n["args"][1]) if len(n.get("args", [])) > 1 else "?"))
     ctx.floor("R08.6", nrd, 1, "reads of the script from stdin")
 
 
